@@ -5,6 +5,13 @@ EXTENDS QuerySem, Json
 (*   laws   (exhaustive): every data set of a tiny universe x every query  *)
 (*          of LawQueries, invariant Laws                                  *)
 (*   bfs    (export): fixed data sets x every query of BfsQueries          *)
+(*   shape  (export): fixed data sets with deliberate shapes x the query   *)
+(*          families that need them: complementary nulls (every window has *)
+(*          a value of some field while another field is null there) x     *)
+(*          multi-field GROUP BY time() [, tag] x all fill modes x window  *)
+(*          aligned ranges (FillQueries); tied newest / oldest points and  *)
+(*          tied extreme values across the series of a group x selectors   *)
+(*          (TieQueries)                                                   *)
 (*   sim    (export): random data sets and random queries of the grammar   *)
 (* Export prints one JSON line per behaviour that reached Depth.           *)
 (***************************************************************************)
@@ -96,6 +103,66 @@ CONSTANTS BfsStride, BfsOff
 BfsSample(D, x) == LET s == SetToSeq(BfsQueries(D, x))
                    IN {s[i] : i \in {j \in 1..Len(s) : j % BfsStride = BfsOff}}
 
+
+-----------------------------------------------------------------------------
+(* shape: data sets drawn deliberately + the query families that need them *)
+\* complementary nulls: series 1 (a,x) has a row at EVERY time, fa always present, fb / fc only now and then, so every
+\* window has a value of fa while fb / fc are null there (alone, twice in a row, in the first and in the last window);
+\* the other series are sparse (windows missing per tag group, values that join the windows of the ungrouped query)
+FillData1 ==
+  [kinds |-> [f \in FieldSet |-> CASE f = "fa" -> "int" [] f = "fb" -> "float" [] OTHER -> "int"],
+   rows |-> {R(1, 0, 1, 3, NULL), R(1, 1, 2, NULL, 1), R(1, 2, 0, NULL, NULL), R(1, 3, 3, 1, NULL), R(1, 4, 1, NULL, NULL),
+             R(1, 5, 2, NULL, NULL), R(1, 6, -1, NULL, NULL), R(1, 7, 0, NULL, 3), R(1, 8, 1, NULL, NULL), R(1, 9, 3, 2, NULL),
+             R(1, 10, 2, NULL, NULL), R(1, 11, 1, NULL, 0),
+             R(2, 1, NULL, 2, NULL), R(2, 6, 2, NULL, NULL), R(3, 2, 1, NULL, 2), R(3, 10, 0, 2, NULL), R(4, 5, NULL, NULL, 1)}]
+FillData2 ==
+  [kinds |-> [f \in FieldSet |-> CASE f = "fa" -> "float" [] f = "fb" -> "str" [] OTHER -> "bool"],
+   rows |-> {R(1, 0, 2, NULL, 1), R(1, 1, 1, NULL, NULL), R(1, 2, 0, 1, NULL), R(1, 3, 3, NULL, NULL), R(1, 4, -1, NULL, 0),
+             R(1, 5, 2, 2, NULL), R(1, 6, 1, NULL, NULL), R(1, 7, 0, NULL, NULL), R(1, 8, 3, 0, 1), R(1, 9, 1, NULL, NULL),
+             R(1, 10, 2, NULL, NULL), R(1, 11, 0, NULL, NULL),
+             R(2, 0, 1, 1, 0), R(2, 7, NULL, 3, NULL), R(4, 3, NULL, NULL, 1), R(4, 9, 2, NULL, NULL)}]
+\* ties: the series of a group share the time stamp of their newest and of their oldest point (greater value first in
+\* group x / t1 = a, later in group y), a window in the middle has tied points too, and the extreme values occur twice
+TieData1 ==
+  [kinds |-> [f \in FieldSet |-> CASE f = "fa" -> "int" [] f = "fb" -> "float" [] OTHER -> "bool"],
+   rows |-> {R(1, 1, 3, 0, 1), R(2, 1, 1, 2, 0), R(3, 1, 0, 1, 0), R(4, 1, 2, 3, 1),
+             R(1, 5, 2, 2, NULL), R(2, 5, 3, 1, 1), R(3, 6, 3, NULL, 0), R(4, 6, -1, -1, NULL),
+             R(1, 9, 3, 1, 0), R(2, 9, 0, 3, 1), R(3, 9, 1, -1, 1), R(4, 9, 2, 3, 0), R(2, 3, -1, 3, NULL)}]
+TieData2 ==
+  [kinds |-> [f \in FieldSet |-> CASE f = "fa" -> "float" [] f = "fb" -> "str" [] OTHER -> "int"],
+   rows |-> {R(1, 0, 0, 3, 2), R(2, 0, 2, 0, 2), R(4, 0, 1, 1, NULL),
+             R(1, 4, 2, NULL, 0), R(3, 4, 2, 2, 3), R(2, 7, 1, 2, 3), R(4, 7, 3, 0, 1),
+             R(1, 10, 1, 0, 3), R(2, 10, 3, 2, 1), R(3, 10, 2, 1, 3), R(4, 10, 0, 3, 0)}]
+ShapeData(x) == {FillData1, FillData2, TieData1, TieData2}
+
+TagA == [k |-> "eq", key |-> "t1", val |-> "a", vals |-> {}]
+\* <<width, from, to>>: ranges aligned to the windows; 2, 3, 4, 6 or 12 windows (answers that fit one chunk of 1, 2, 3
+\* rows or the default, and answers that do not)
+FillRanges == {<<3, 0, 12>>, <<4, 0, 12>>, <<2, 0, 12>>, <<3, 3, 9>>, <<6, 0, 12>>, <<1, 0, 12>>}
+FillCalls1(D) == {c \in Calls(D) : c.f = "fa" /\ c.fn \in {"max", "sum", "first"}}
+FillCalls2(D) == {c \in Calls(D) : c.f \in {"fb", "fc"} /\ c.fn \in {"count", "last", "min", "mean"}}
+FillQueries(D) ==
+  {MkAgg(cs, d, rg[2], rg[3], tc, NoFld, "and", rg[1], fl, 7) :
+       cs \in {<<c1, c2>> : c1 \in FillCalls1(D), c2 \in FillCalls2(D)} \cup {<<c2, c1>> : c1 \in FillCalls1(D), c2 \in FillCalls2(D)}
+              \cup {<<[fn |-> "max", f |-> "fa"], [fn |-> "count", f |-> "fb"], [fn |-> "last", f |-> "fc"]>>},
+       d \in {<<>>, <<"t1">>}, rg \in FillRanges, tc \in {NoTag, TagA}, fl \in {"null", "none", "num", "prev"}}
+TieCalls(D) == {c \in Calls(D) : c.fn \in Selectors}
+TieQueries(D) ==
+  {MkAgg(<<c>>, d, rg[2], rg[3], NoTag, NoFld, "and", rg[1], "none", 0) :
+       c \in TieCalls(D), d \in {<<>>, <<"t2">>, <<"t1">>}, rg \in {<<NONE, NONE, NONE>>, <<4, 0, 12>>, <<NONE, 2, 10>>}}
+  \cup
+  {MkAgg(<<c1, c2>>, d, NONE, NONE, NoTag, NoFld, "and", NONE, "null", 0) :
+       c1 \in {c \in TieCalls(D) : c.f = "fa" /\ c.fn \in {"first", "last"}},
+       c2 \in {c \in TieCalls(D) : c.f # "fa" /\ c.fn \in {"first", "last"}}, d \in {<<>>, <<"t2">>}}
+ShapeQueries(D, x) ==
+  {q \in (IF D \in {FillData1, FillData2} THEN FillQueries(D) ELSE TieQueries(D)) : WellFormed(D, q)}
+\* a seeded sample: about every BfsStride-th query of the fill family and every (BfsStride / 100 + 1)-th of the (smaller)
+\* tie family, picked by a scrambled index (a plain stride resonates with the order in which TLC enumerates the family)
+Scramble(j) == (j * 7919 + (j \div 7) * 104729 + (j \div 61) * 1299709 + BfsOff * 15485863) % 1000003
+ShapeSample(D, x) == LET s  == SetToSeq(ShapeQueries(D, x))
+                         st == IF D \in {FillData1, FillData2} THEN BfsStride ELSE (BfsStride \div 100) + 1
+                     IN {s[i] : i \in {j \in 1..Len(s) : Scramble(j) % st = 0}}
+
 -----------------------------------------------------------------------------
 (* sim: random data sets and queries.  Every random choice is bound by a quantifier over a         *)
 (* singleton set ({RandomElement(S)}), so that it is drawn exactly once; function values are forced *)
@@ -108,7 +175,17 @@ SimRows(k, x) ==
   TLCEval({r \in {[s |-> p[1], t |-> p[2], v |-> TLCEval([f \in FieldSet |-> SimCell(k[f], x)])] :
                     p \in {pp \in (1..NS) \X Times : RandomElement(1..10) <= Dens}} :
              \E f \in FieldSet : r.v[f] # NULL})
-SimData(x) == UNION {{[kinds |-> k, rows |-> rows] : rows \in {SimRows(k, x)}} : k \in {SimKinds(x)}}
+\* the complementary-null shape: one series has a row at every time with about half of its cells null (every window
+\* has a value of some field while another field is null there); the other series are sparse
+SimCellC(kind, x) == IF RandomElement(1..2) = 1 THEN NULL
+                     ELSE IF kind = "bool" THEN RandomElement({0, 1}) ELSE RandomElement(Vals)
+SimRowsC(k, dense, x) ==
+  TLCEval({r \in {[s |-> p[1], t |-> p[2], v |-> TLCEval([f \in FieldSet |-> SimCellC(k[f], x)])] :
+                    p \in {pp \in (1..NS) \X Times : pp[1] = dense \/ RandomElement(1..10) <= 2}} :
+             \E f \in FieldSet : r.v[f] # NULL})
+SimData(x) == UNION {{[kinds |-> k, rows |-> rows] :
+                        rows \in {IF RandomElement(1..5) <= 2 THEN SimRowsC(k, RandomElement(1..NS), x) ELSE SimRows(k, x)}} :
+                     k \in {SimKinds(x)}}
 
 RE(S) == RandomElement(S)
 SimTag(x) == IF RE(1..2) = 1 THEN NoTag ELSE RE(TagConds)
@@ -124,8 +201,12 @@ SimHi(x) == IF RE(1..2) = 1 THEN NONE ELSE RE((Max(Times) - 4)..(Max(Times) + 2)
 SimSel(D, x) ==
   LET ef == Existing(D)
   IN RE({<<"*">>} \cup {<<f>> : f \in ef} \cup {fg \in (ef \X (ef \cup {"t1"})) : fg[1] # fg[2]})
+\* LIMIT / OFFSET only on ungrouped selections, a selected tag is not a dimension: repaired, so that a simulation does
+\* not end for want of a well formed query
+FixRaw(q) == [q EXCEPT !.dims = IF q.lim # NONE THEN <<>>
+                                ELSE SelectSeq(@, LAMBDA k : \A i \in 1..Len(q.sel) : q.sel[i] # k)]
 SimRaw(D, x) ==
-  {MkRaw(sel, d, lo, hi, tc, fc, SimConn(tc, fc), lo2[1], lo2[2]) :
+  {FixRaw(MkRaw(sel, d, lo, hi, tc, fc, SimConn(tc, fc), lo2[1], lo2[2])) :
      sel \in {SimSel(D, x)}, d \in {IF RE(1..3) = 1 THEN RE(DimChoices) ELSE <<>>},
      lo \in {SimLo(x)}, hi \in {SimHi(x)}, tc \in {SimTag(x)}, fc \in SimFld(D, x),
      lo2 \in {IF RE(1..2) = 1 THEN <<NONE, NONE>> ELSE <<RE({1, 2, 3, 5}), RE({NONE, 1, 2, 4})>>}}
@@ -143,5 +224,20 @@ SimAgg(D, x) ==
      iv \in {IF RE(1..3) = 1 THEN <<NONE, 0, 0, "null", 0>>
              ELSE <<RE({2, 3, 4, 5}), RE(Min(Times)..(Min(Times) + 4)), RE((Max(Times) - 3)..(Max(Times) + 3)),
                     RE({"null", "none", "num", "prev"}), RE({0, 7, 2})>>}}
-SimQueries(D, x) == IF RE(1..5) <= 2 THEN SimRaw(D, x) ELSE SimAgg(D, x) \cup SimAgg(D, x + 7)
+\* multi-field aggregates over window aligned ranges, GROUP BY time() only or with a tag, every fill mode
+SimCallOn(D, f, x) == {[fn |-> fn, f |-> f] : fn \in {RE(FnsOf(D.kinds[f]))}}
+SimFillCalls(D, x) ==
+  UNION {UNION {{IF ff[1] = ff[2] THEN <<c1, [fn |-> "count", f |-> ff[1]]>> ELSE <<c1, c2>> :
+                    c2 \in SimCallOn(D, ff[2], x + 1)} : c1 \in SimCallOn(D, ff[1], x)} :
+         ff \in {<<RE(Existing(D)), RE(Existing(D))>>}}
+SimFillAgg(D, x) ==
+  {MkAgg(cs, d, wk[1] * wk[2], IF wk[1] * (wk[2] + wk[3]) > 12 THEN 12 ELSE wk[1] * (wk[2] + wk[3]), tc, NoFld, "and", wk[1],
+         IF fl = "num" /\ \E i \in 1..Len(cs) : ~NumResult(D, cs[i]) THEN "prev" ELSE fl, RE({0, 7, 2})) :
+     cs \in SimFillCalls(D, x),
+     d \in {IF RE(1..2) = 1 THEN <<>> ELSE RE(DimChoices)},
+     wk \in {<<RE({2, 3, 4, 6}), IF RE(1..3) = 1 THEN 1 ELSE 0, RE(1..6)>>},
+     tc \in {IF RE(1..3) = 1 THEN RE(TagConds) ELSE NoTag}, fl \in {RE({"null", "none", "num", "prev"})}}
+SimQueries(D, x) == IF RE(1..5) <= 2 THEN SimRaw(D, x)
+                    ELSE IF RE(1..3) = 1 THEN SimFillAgg(D, x) \cup SimFillAgg(D, x + 3)
+                    ELSE SimAgg(D, x) \cup SimAgg(D, x + 7)
 =============================================================================
